@@ -198,11 +198,13 @@ class TlcResult:
 
 
 def tlc(module, cfg=None, workers=8, timeout=900, env=None, trace=False, extra=None,
-        heap="8g", meta=None, coverage=False, simulate=None, check_error=True):
+        heap="8g", meta=None, coverage=False, simulate=None, check_error=True, _nolock=False):
     """Runs TLC on spec/<module>.tla with spec/<cfg> (default <module>.cfg)."""
     ensure_bigf()
     cfg = cfg or (module + ".cfg")
-    meta = meta or os.path.join(WORK, "tlc-%s-%d" % (module, os.getpid()))
+    import threading
+    meta = meta or os.path.join(WORK, "tlc-%s-%s-%d-%d" % (module, os.path.splitext(os.path.basename(cfg))[0],
+                                                        os.getpid(), threading.get_ident() % 100000))
     shutil.rmtree(meta, ignore_errors=True)
     os.makedirs(meta, exist_ok=True)
     jopts = "-Xss1g"
@@ -225,14 +227,44 @@ def tlc(module, cfg=None, workers=8, timeout=900, env=None, trace=False, extra=N
     e = {"JAVA_TOOL_OPTIONS": jopts}
     if env:
         e.update(env)
-    t0 = time.time()
-    with Lock("tlc.lock"):
+    if _nolock:
+        t0 = time.time()
         rc, out, err = run(cmd, cwd=SPEC, env=e, timeout=timeout)
+    else:
+        with Lock("tlc.lock"):
+            t0 = time.time()            # wall time of the run itself, not of the wait for the lock
+            rc, out, err = run(cmd, cwd=SPEC, env=e, timeout=timeout)
     shutil.rmtree(meta, ignore_errors=True)
     res = TlcResult(rc, out + "\n" + err, time.time() - t0)
     if check_error and (res.error or (rc != 0 and not res.violated)):
         raise ToolError("TLC %s/%s failed (rc=%d):\n%s" % (module, cfg, rc, res.out[-6000:]))
     return res
+
+
+def tlc_many(jobs, max_parallel=6):
+    """Runs several independent TLC jobs concurrently (one lock acquisition for the
+    whole batch). Each job is a dict of keyword arguments of `tlc` (module, cfg,
+    workers, timeout, env, trace, heap, check_error, coverage). Returns the
+    TlcResult list in job order; raises ToolError like `tlc` (after all finished)."""
+    import concurrent.futures
+    ensure_bigf()
+    results = [None] * len(jobs)
+    errors = []
+
+    def one(i):
+        j = dict(jobs[i])
+        j["_nolock"] = True
+        try:
+            results[i] = tlc(**j)
+        except ToolError as e:
+            errors.append(e)
+
+    with Lock("tlc.lock"):
+        with concurrent.futures.ThreadPoolExecutor(max_workers=max_parallel) as ex:
+            list(ex.map(one, range(len(jobs))))
+    if errors:
+        raise errors[0]
+    return results
 
 
 def find_community():
